@@ -477,7 +477,7 @@ func errKind(err error) uint64 {
 		return 3
 	case strings.Contains(s, "could not cast"), strings.Contains(s, "expected vector got"), strings.Contains(s, "could not query field"),
 		strings.Contains(s, "expected float32 got"), strings.Contains(s, "expected string got"), strings.Contains(s, "got int"), strings.Contains(s, "got float"),
-		strings.Contains(s, "unsupported code"), strings.Contains(s, "invalid syntax"):
+		strings.Contains(s, "unsupported code"), strings.Contains(s, "invalid syntax"), strings.Contains(s, "key required"):
 		return 4
 	}
 	return 9
